@@ -234,7 +234,7 @@ NEUTRAL = [
     # documented limitation (DESIGN 11.4b): moving an anchored statement into a new helper function makes the rule lose
     # its anchor; it then FAILS CLOSED with an `anchors missing` report instead of deciding.  Kept to watch that this
     # stays a coverage report and never turns into a wrong diagnosis.
-    dict(id="N23-committer-apply-step-extracted-into-a-helper", fail_closed_ok=True, file=ST + "write_manager/write_behind.rs",
+    dict(id="N23-committer-apply-step-extracted-into-a-helper", file=ST + "write_manager/write_behind.rs",
          edits=[("""                let task = pending_commits.pop().unwrap();
 
                 current_batch
